@@ -82,6 +82,9 @@ def gen_cases(ctx):
             doc = [elem(('t', 'ok', typed[t]), pos + 1) for pos, t in enumerate(seq)]
             for disp in DISPS[:4]:
                 yield dict(part='d', disp=disp, mbs=None, doc=doc)
+    for disp in DISPS:
+        for route in ('registry.add', 'registry.merge', 'dispatcher.add', 'dispatcher.add_methods'):
+            yield dict(part='late', disp=disp, route=route)
     # (e) long batches: lengths around powers of two and other round numbers (chunking / slicing thresholds), a few patterns each
     for L in (5, 8, 16, 17, 31, 32, 33, 50, 63, 64, 65, 100, 127, 128, 129, 255, 256, 257, 500, 1000, 1001):
         for pattern in ('calls', 'alternate', 'last-fails', 'notifs-then-call'):
@@ -115,7 +118,59 @@ def gen_cases(ctx):
                     yield dict(part='c', disp=disp, mbs=mbs, doc=doc)
 
 
+def run_late(case, rec):
+    """a method that is requested before it exists and registered afterwards (through each public registration route) must be
+    executed exactly once per later call - and only then"""
+    import pjrpc.server
+    disp, route = case['disp'], case['route']
+    s = Sys(disp, TABLE)
+    log = []
+    if s.is_async:
+        async def late(a=0):
+            log.append(('late', a))
+            return ['late', a]
+    else:
+        def late(a=0):
+            log.append(('late', a))
+            return ['late', a]
+    texts = [json.dumps(elem(('x', 'late', [1]), 1)), json.dumps([elem(('x', 'late', [2]), 2), elem(('x', 'late', [3]), '__absent__')])]
+    for t in texts:
+        o = observe(s, t)
+        rec.transitions += 1
+        codes = [e.get('error', {}).get('code') for e in (o['answer'] if isinstance(o['answer'], list) else [o['answer']])] if o['answer'] is not NOTHING else []
+        if log or any(c != -32601 for c in codes):
+            rec.violation('C02:late:a method that does not exist yet was executed / not answered with -32601', case, expected=-32601, observed=dict(answer=o['answer'], log=list(log)))
+            return 'bad'
+    if route == 'registry.add':
+        s.d.registry.add(late, name='late')
+    elif route == 'registry.merge':
+        r = pjrpc.server.MethodRegistry()
+        r.add(late, name='late')
+        s.d.registry.merge(r)
+    elif route == 'dispatcher.add':
+        s.d.add(late, name='late')
+    else:
+        r = pjrpc.server.MethodRegistry()
+        r.add(late, name='late')
+        s.d.add_methods(r)
+    want_log = []
+    for t, n_exec, args in ((texts[0], 1, [1]), (texts[1], 2, [2, 3]), (texts[0], 1, [1])):
+        del log[:]
+        o = observe(s, t)
+        rec.transitions += 1
+        if [a for _, a in log] != args:
+            rec.violation('C02:late:a method registered after it was first requested is not executed exactly once per call', case,
+                          expected=args, observed=dict(answer=o['answer'], log=list(log)))
+            return 'bad'
+    rec.traces += 1
+    rec.states += 1
+    rec.nontrivial_n += 1
+    return 'ok'
+
+
 def run_case(case, rec):
+    if case['part'] == 'late':
+        return run_late(case, rec)
     disp, mbs, doc = case['disp'], case['mbs'], case['doc']
     text = json.dumps(doc)
     s = Sys(disp, TABLE, max_batch_size=mbs)
